@@ -223,7 +223,11 @@ def solve_ivp(fun, t_span, y0, method='RK45', args=None, vectorized=False, **kw)
     y0 = snp._as_nd(y0)
     n = y0.size
     vals = []
+    r_one = c.limits.get('ivp_R_one')
     for i in range(n):
+        if r_one and i < n // 2:
+            vals.append(C(1, 0))          # forward wave normalised to 1: rho = S/R = S (used by the energy-lemma configuration)
+            continue
         re = z3.Real(f'ivp_re{i}')
         im = z3.Real(f'ivp_im{i}')
         c.inputs[f'ivp_re{i}'] = re
